@@ -218,6 +218,7 @@ def _plan(tier):
     if not q:
         P.append(("moves", dict(nleaves=4, kinds=("d", "e", "c")), ("built",)))
         P.append(("call", dict(k=4), ("called",)))
+    P.append(("moves", dict(nleaves=2), (), "specialised-iff-homogeneous"))
     return P
 
 
